@@ -190,6 +190,48 @@ def gen_history(rng, maxlen, minlen, nops, flavour):
     return {"id": 0, "lines": lines}
 
 
+def exhaustive_windows():
+    """every short sequence of queue-wide operations placed between ready() and subscribe() and between subscribe()
+    and check_next() of one next(), for every mode, small configurations and three starting situations"""
+    W = ["pub", "pubn2", "pubn3", "close", "kick"]
+    seqs1 = [[]] + [[a] for a in W] + [[a, b] for a in W for b in W]
+    seqs2 = [[]] + [[a] for a in W]
+    cases = []
+    for mode in "abr":
+        for mx, mn in [(0, 1), (1, 1), (2, 1), (2, 2)]:
+            for pre in range(3):
+                for s1 in seqs1:
+                    for s2 in seqs2:
+                        v = [1]
+
+                        def emit(lines, op):
+                            if op == "pub":
+                                lines.append("pub %d" % v[0]); v[0] += 1
+                            elif op.startswith("pubn"):
+                                k = int(op[4:])
+                                lines.append("pubn " + " ".join(str(v[0] + i) for i in range(k))); v[0] += k
+                            elif op == "kick":
+                                lines.append("kick 0")
+                            else:
+                                lines.append(op)
+                        lines = ["case 0 pub %d %d" % (mx, mn), "sub 0 %s" % mode]
+                        if pre >= 1:
+                            emit(lines, "pub")
+                        if pre == 2:
+                            emit(lines, "pub")
+                        if pre >= 1:
+                            lines.append("poll 0")
+                        lines.append("rdy 0")
+                        for op in s1:
+                            emit(lines, op)
+                        lines.append("sus 0")
+                        for op in s2:
+                            emit(lines, op)
+                        lines += ["res 0", "poll 0", "poll 0", "end"]
+                        cases.append({"id": 0, "lines": lines})
+    return cases
+
+
 class PubSuite(Suite):
     name = "pub-steps"
     harness = HARNESS
@@ -199,8 +241,10 @@ class PubSuite(Suite):
     nontrivial_rule = "at least one value fetched and at least one subscriber parked or ended"
 
     def gen_cases(self, rng, tier):
-        n = 1200 if tier == "quick" else 36000
-        cases = []
+        n = 3000 if tier == "quick" else 250000
+        cases = exhaustive_windows()
+        if tier == "quick":
+            cases = rng.sample(cases, 700)
         for i in range(n):
             if rng.random() < 0.2:
                 maxlen, minlen = 0, 1
@@ -435,10 +479,11 @@ class ThreadSuite(Suite):
     driver = "drv_c16"
     corpus_prefix = None
     chunk = 10
+    timeout = 120
     nontrivial_rule = "every case (publisher thread + 1..4 subscriber threads)"
 
     def gen_cases(self, rng, tier):
-        n = 60 if tier == "quick" else 1500
+        n = 160 if tier == "quick" else 4000
         cases = []
         for i in range(n):
             if rng.random() < 0.4:
@@ -447,7 +492,7 @@ class ThreadSuite(Suite):
                 maxlen = rng.randint(1, 5)
                 minlen = rng.randint(1, maxlen)
             modes = "".join(rng.choice("aabr") for _ in range(rng.randint(1, 4)))
-            cases.append({"id": 0, "lines": ["case 0 thr %d %d %d %d %s" % (maxlen, minlen, rng.choice([20, 60, 200]),
+            cases.append({"id": 0, "lines": ["case 0 thr %d %d %d %d %s" % (maxlen, minlen, rng.choice([50, 300, 1500]),
                                                                              rng.choice([1, 1, 3, 6]), modes), "end"]})
         return cases
 
